@@ -25,7 +25,7 @@ PROPS = {
     },
     "C08": {
         "modules": ["Cose.Props.C08"],
-        "families": ["cbor", "map", "msg:wrongtype", "msg:gomap", "msg:C08"],
+        "families": ["cbor", "map", "msg:wrongtype", "msg:gomap", "msg:C08", "claims"],
         "spec_ops": ["cbor.enc", "wire.wrongtype", "wire.badbucket", "wire.badpayload", "cbor.encdup", "wire.msgdup"],
         "n_quick": 8000, "n_thorough": 200000,
         "rule": "cbor.enc: random Go values (all integer kinds, nil/empty slices, nested CoseMaps of 0..320 int/text labels) encoded by the "
